@@ -28,6 +28,8 @@ Require Import V.Proofs.C04XOracleProofs.
 Require Import V.Proofs.RenderWords.
 Require Import V.Proofs.C04Bytes.
 Require Import V.Proofs.C04XBytes.
+Require Import V.Model.PubGetters.
+Require Import V.Proofs.C04Getters.
 Open Scope Z_scope.
 
 (* every reachable state satisfies the invariant the other statements are proved from *)
@@ -334,6 +336,40 @@ Theorem C04_oracle_history_exclusive_cleaned : forall m rv h ops x0,
   holds_history (geom_of_handover h) (map xoop_of ops) (xpub_trace m rv x0 ops) = true.
 Proof. exact xoracle_history_cleaned. Qed.
 Print Assumptions C04_oracle_history_exclusive_cleaned.
+
+(* ---- the getters that expose the flow-control state (round 3): is_closed, is_connected, publication_limit(),
+   available_window(), position(), the geometry fixed at construction, the exclusive publication's term_id / term_offset ----
+   available_window() of an open publication is limit - position (computed in i64: `sub64`); it is <= 0 exactly when the
+   position has reached the limit ... *)
+Theorem C04_window : forall m s n off w, pub_inv n off s -> ps_closed s = false ->
+  in_i64 (l_limit (ps_log s) - spec_pos (ps_log s) n off) = true ->
+  pub_window m s = Ok w -> (w <= 0 <-> l_limit (ps_log s) <= spec_pos (ps_log s) n off).
+Proof. exact window_flow. Qed.
+Print Assumptions C04_window.
+
+(* ... and then every offer / claim / bulk offer is refused and changes nothing *)
+Theorem C04_window_refuses : forall m rv s n off w o, pub_inv n off s -> ps_closed s = false ->
+  in_i64 (l_limit (ps_log s) - spec_pos (ps_log s) n off) = true ->
+  pub_window m s = Ok w -> w <= 0 -> op_ok (ps_log s) o -> is_append o = true ->
+  fst (pub_step m rv s o) = s /\ exists e, snd (pub_step m rv s o) = Err e /\ e <> AdminAction.
+Proof. exact window_refuses. Qed.
+Print Assumptions C04_window_refuses.
+
+(* the getters' oracle (`holds_gets`: flags and limit as the environment set them, window = limit - position, position inside the
+   position space and never going back, no advance while the window is <= 0, Closed from every Result getter of a closed
+   publication, the construction-time geometry) is true on the model for every history - no cleaning contract needed *)
+Theorem C04_oracle_getters : forall m rv h ops, handover_ok h -> hist_ok (handover_log h) ops ->
+  holds_gets (geom_of_handover h) false (map oop_of ops)
+             (pub_statics (handover_log h), pub_getters m (pub_init (handover_log h)) :: pub_gets_trace m rv (pub_init (handover_log h)) ops) = true.
+Proof. exact oracle_gets_shared. Qed.
+Print Assumptions C04_oracle_getters.
+
+Theorem C04_oracle_getters_exclusive : forall m rv h ops x0,
+  handover_ok h -> hist_ok (handover_log h) ops -> xpub_new (handover_log h) = Ok x0 ->
+  holds_gets (geom_of_handover h) true (map xoop_of ops)
+             (pub_statics (xlog x0), xpub_getters m x0 :: xpub_gets_trace m rv x0 ops) = true.
+Proof. exact oracle_gets_exclusive. Qed.
+Print Assumptions C04_oracle_getters_exclusive.
 
 (* non-vacuity: a history that trips at the end of a term, rotates, fragments a message, claims and commits *)
 Example C04_history_example :
